@@ -7,6 +7,7 @@ word, AWS 32-character slots, hash-only catch-alls, numeric communities are excl
 import random
 
 ALL = ("text", "hex", "type7", "md5", "sha512", "jun9")
+ALLN = ALL + ("numeric", "text32")
 TXT = ("text",)
 NONNUM = ALL
 FORMS = [
@@ -102,6 +103,17 @@ FORMS = [
     ("set snmp trap-group {} otherstuff", TXT),
     ('authentication-key "{}";', ("jun9", "text")),
     ('    hello-authentication-key "{}";', ("jun9", "text")),
+    # --- AWS VPN configuration (the slot takes exactly 32 characters)
+    ("      <pre_shared_key>{}</pre_shared_key>", ("text32",)),
+    ('                "PreSharedKey": "{}",', ("text32",)),
+    # --- all-digit secrets, on forms where the slot ends the line and no optional number precedes it
+    ("set password {}", ("numeric",)),
+    ("isis password {}", ("numeric",)),
+    ("ip ftp password {}", ("numeric",)),
+    ("domain-password {}", ("numeric",)),
+    ("ppp chap hostname {}", ("numeric",)),
+    ("rf-switch snmp-community {}", ("numeric",)),
+    ("set pksecret {}", ("numeric",)),
     # --- standalone hash-shaped tokens, whatever keywords surround them
     ("some unknown keyword {} trailing words", ("md5", "jun9")),
     ("{}", ("md5", "jun9")),
@@ -148,8 +160,10 @@ def gen_secret(rng, cls, md5_salt_len=None, plain=None):
             s = rng.choice("ghijklmnopqrstuvwxyzGHIJKLMNOPQRSTUVWXYZ") + "".join(rng.choice(TEXT_ALPHA) for _ in range(n - 1))
             if not is_reserved(s) and not s.lower().startswith("netconanremoved") and s[-1] not in ":.":
                 return s
+    if cls == "text32":
+        return rng.choice("ghijklmnopqrstuvwxyz") + "".join(rng.choice(B64[2:]) for _ in range(31))
     if cls == "numeric":
-        return str(rng.randint(0, 10 ** rng.randint(1, 12)))
+        return str(rng.randint(10, 10 ** rng.randint(2, 12)))
     if cls == "hex":
         while True:
             s = "".join(rng.choice("0123456789abcdefABCDEF") for _ in range(rng.randint(5, 24)))
